@@ -183,10 +183,7 @@ func Check_Sequences() {
 		}
 		sx.Assert(set.PrepareSet(t, 777) == nil, "prefix-prepare")
 		mk, enc := elemList(menu[1], isT, 777)
-		ppath := dirty
-		if sx.Tier() > 0 {
-			ppath = sx.Choose("prefixPath", 3)
-		}
+		ppath := dirty // which add path made the set dirty is tied to the kind of prefix
 		sx.Assert(add(set, ppath, 1, mk(), 777) == nil, "prefix-add")
 		invariants(set, enc)
 		set.UpdateLenInHeader()
